@@ -371,7 +371,13 @@ func (t *TabList) processUpdateForEntry(actions []playerinfo.UpsertAction, info 
 	}
 	if playerinfo.ContainsAction(actions, playerinfo.InitializeChatAction) {
 		doInternalEntity(currentEntry, func(e internalEntry) {
-			e.SetChatSessionInternal(info.RemoteChatSession)
+			if info.RemoteChatSession == nil {
+				// do not store a typed nil pointer in the interface, the entry
+				// would report a non-nil ChatSession()
+				e.SetChatSessionInternal(nil)
+			} else {
+				e.SetChatSessionInternal(info.RemoteChatSession)
+			}
 		})
 	}
 	if playerinfo.ContainsAction(actions, playerinfo.UpdateListedAction) {
